@@ -8,6 +8,8 @@
 (*                                                                         *)
 (* Abstract transaction  c :                                               *)
 (*   asset  "XIN" | "BTC" | "OTH" | "NEW"  (NEW: never seen by the ledger) *)
+(*          | "ZER" (registered, recorded total exactly zero: deposited    *)
+(*          once and withdrawn in full)                                    *)
 (*   fork   BOOLEAN           ts  "gen" | "late"   (snapshot time class)   *)
 (*   ins    sequence of [slot, gen, dep, mint, amt]                        *)
 (*   outs   sequence of [t, amt, nk, kv, scr, mask, wd]                    *)
